@@ -201,6 +201,7 @@ def run(ctx):
         cases.append(gen.case(mal))
 
     corr, corr_ix, sem, sem_ix = [], [], [], []
+    ssem, ssem_ix = [], []
     diffs = {}
     nstruct = 0
     glue_bad = 0
@@ -275,6 +276,32 @@ def run(ctx):
                 corr_ix.append(ci)
         elif not infrag:
             ctx.hist("outside_model_fragment", why)
+        # ---- (3b) glue for the strided call semantics (coq/C07/Stride.v), whatever the verdict
+        sp = [p_ for p_, a in enumerate(call[2]) if a[0] == "sec" and any(d[0] == "rng" and len(d) > 3 for d in a[2])]
+        if (infrag and len(sp) == 1 and len(call[2]) == len(case["formals"]) and len(call[2][sp[0]][2]) == 1
+                and case["formals"][sp[0]][1] is not None and len(case["formals"][sp[0]][1]) == 1
+                and not [r_ for r_ in rs if r_ != "local-captures-container-variable"] and len(ssem) < ctx.pick(40, 300)):
+            a = call[2][sp[0]]
+            fn, fd = case["formals"][sp[0]]
+            mini = dict(case)
+            mini["caller"] = [call]
+            vals = make_store(case, rng)
+            try:
+                o = L.interp(mini, mini["caller"], vals, L.caller_bounds(case), True)
+            except L.NonConforming:
+                o = None
+            if o is not None and o[0] in ("ok", "fault"):
+                for ln_, _, _ in case["locals"]:
+                    nm.get(ln_ + "#fresh")
+                frn = core.coq_list("(%d%%nat, %d%%nat)" % (nm.get(ln_), nm.get(ln_ + "#fresh")) for ln_, _, _ in case["locals"])
+                cs2 = L.encode_callsite(case, nm, res["own_names"], res["outer_names"])
+                ss = "(mkSS %d%%nat (%d) %s)" % (nm.get(fn), 1 if fd[0][1] is None else fd[0][1], mf.expr_to_coq(a[2][0][3], nm))
+                exp = "None" if o[0] == "fault" else "(Some [%s])" % "; ".join(
+                    "((%d%%nat, [%s]), (%d))" % (nm.get(k[0]), "; ".join("(%d)" % z for z in k[1]), z2)
+                    for k, z2 in sorted(o[1].items()))
+                ssem.append("(%s, %s, %s, %s, %s)" % (cs2, ss, frn, mf.store_to_coq(vals, L.caller_bounds(case), nm), exp))
+                ssem_ix.append(ci)
+                ctx.hist("strided_glue_stride", mf.expr_to_fortran(a[2][0][3]))
         # ---- (1) verdict on the property itself
         if diff is not None:
             replay = {"property": "C07", "fortran_module": text, "inlined_caller": res["inlined"], "observed": diff,
@@ -288,7 +315,9 @@ def run(ctx):
     # ---- Coq evaluation
     bad_corr = ctx.coq_eval_failing(HEADER, "corr_case", "corr_check", corr, shard=120) if corr else []
     bad_sem = ctx.coq_eval_failing(HEADER, "sem_case", "sem_check", sem, shard=60) if sem else []
-    ctx.cov["disagreements_checked"] = len(bad_corr) + len(bad_sem)
+    bad_ssem = ctx.coq_eval_failing(HEADER + "\nFrom PV Require Import C07.Stride.", "ssem_case", "ssem_check", ssem, shard=60) if ssem else []
+    ctx.notes["strided_semantics_glue_cases"] = len(ssem)
+    ctx.cov["disagreements_checked"] = len(bad_corr) + len(bad_sem) + len(bad_ssem)
     ctx.notes["correspondence_cases"] = len(corr)
     ctx.notes["semantics_glue_cases"] = len(sem)
     bad_ci = {corr_ix[k]: k for k in bad_corr}
@@ -303,8 +332,8 @@ def run(ctx):
             found.setdefault(rs[0], replay)
         else:
             unexplained.append((ci, replay))
-    ctx.log("cases=%d corr=%d (bad %d) sem=%d (bad %d) differing=%d findings=%s unexplained=%d"
-            % (len(cases), len(corr), len(bad_corr), len(sem), len(bad_sem), len(diffs), sorted(found), len(unexplained)))
+    ctx.log("cases=%d corr=%d (bad %d) sem=%d (bad %d) strided-sem=%d (bad %d) differing=%d findings=%s unexplained=%d"
+            % (len(cases), len(corr), len(bad_corr), len(sem), len(bad_sem), len(ssem), len(bad_ssem), len(diffs), sorted(found), len(unexplained)))
     ctx.notes["cases_with_semantic_difference"] = len(diffs)
 
     # ---- verdicts
@@ -325,5 +354,9 @@ def run(ctx):
     for k in bad_sem[:2]:
         ctx.violation({"property": "C07", "broken": "glue: Coq exec_call differs from the harness by-reference interpreter",
                        "fortran_module": L.case_to_fortran(cases[sem_ix[k]]), "coq_case": sem[k][:4000]}, no_input=True)
+    for k in bad_ssem[:2]:
+        ctx.violation({"property": "C07", "broken": "glue: Coq exec_call_strided (coq/C07/Stride.v) differs from the harness interpreter "
+                       "on a strided section actual", "fortran_module": L.case_to_fortran(cases[ssem_ix[k]]), "coq_case": ssem[k][:4000]},
+                      no_input=True)
     if not ok and not unexplained:
         ctx.violation({"property": "C07", "broken": "proof obligations of Properties/C07.v", "proof_report": rep}, no_input=True)
